@@ -184,9 +184,9 @@ pub fn registry() -> &'static Vec<TypeEntry> {
             let b: BlindedMessage = Message::new([rand_scalar(s), rand_scalar(s + 1), rand_scalar(s + 2)]).blind(k.kp.public_key(), bf(&rand_scalar(s ^ 3)));
             b
         }));
-        v.push(entry("RangeConstraintParameters", |s| (*super::c10::range_params(s % 2)).clone()));
+        v.push(entry("RangeConstraintParameters", |s| (*super::common::range_params(s % 2)).clone()));
         v.push(entry("RangeConstraint", |s| {
-            let p = super::c10::range_params(0);
+            let p = super::common::range_params(0);
             let b = RangeConstraintBuilder::generate_constraint_commitments((s >> 1) as i64, &p, &mut rng(s)).unwrap();
             let c = ChallengeBuilder::new().with(&b).finish();
             let rc: RangeConstraint = b.generate_constraint_response(c);
